@@ -375,13 +375,13 @@ fn key_id(rng: &mut Rng) -> KeyIdentifier {
 
 //------------ generation: fixtures ---------------------------------------------
 
-struct Fix {
-    certs: Vec<Cert>,
-    csrs: Vec<RpkiCaCsr>,
-    idcerts: Vec<Vec<u8>>,
+pub struct Fix {
+    pub certs: Vec<Cert>,
+    pub csrs: Vec<RpkiCaCsr>,
+    pub idcerts: Vec<Vec<u8>>,
 }
 
-fn fixtures(rng: &mut Rng) -> Fix {
+pub fn fixtures(rng: &mut Rng) -> Fix {
     let pool = Pool::new(3);
     let mut certs = Vec::new();
     let mut ta = pool.spec(0, 0, Kind::Ta);
